@@ -55,7 +55,9 @@ impl Ctx {
         let fpl = *self.rng.pick(&[20usize, 32]);
         let fp = self.rng.bytes(fpl);
         let zlen = match curve { ECCCurve::P384 => 48, ECCCurve::P521 => 66, _ => 32 };
-        let z = self.rng.bytes(zlen);
+        let mut z = self.rng.bytes(zlen);
+        // shared secrets with leading zero octets (1 in 256 by chance): forced, so they do not wait for luck
+        match self.rng.below(4) { 0 => z[0] = 0, 1 => { z[0] = 0; z[1] = 0; } _ => {} }
         let param = pgp::crypto::ecdh::build_ecdh_param(&oid, sym_of(sym), hash_of(hash), &fp);
         self.out.case("ecdhparam", &[hx(&oid), sym.to_string(), hash.to_string(), hx(&fp)], &[], &hx(&param), None, cls);
         let kek = res(guarded(|| pgp::crypto::ecdh::kdf(hash_of(hash), &z, key_len(sym), &param).map_err(|e| e.to_string())), |v| hx(&v));
